@@ -12,6 +12,7 @@ import GbVerif.Proofs.X86Status
 import GbVerif.Proofs.X86Writes
 import GbVerif.Proofs.X86Safe
 import GbVerif.Proofs.X86SimMoves
+import GbVerif.Proofs.X86SimAlu3
 /-!
 C01 — translated blocks have the same architectural effect as the interpreter.
 (Structural facts first; the x86 model and per-template simulation lemmas are added by `Proofs/X86*.lean`.)
@@ -360,8 +361,9 @@ example : (match decodeCode (Gen.emitOp 0xc5) with
 16 bits of rax rcx rdx rbx r12 r13 r15; everything else arbitrary), over any bus, every complete run of the template of the
 encoding `b0` with operand bytes `b1 b2` ends in a host state related to the register file `Interp.runOp` produces from
 `g` (cycles included), with the bus, the host stack and the status byte untouched.  The statement for ALL register-only
-encodings is `RegisterSimulation`; it is PROVED for the register-transfer family below (70 encodings) and otherwise
-carried by the native differential and the exhaustive `c01.grid`. -/
+encodings is `RegisterSimulation`; it is PROVED for the register-transfer family (70 encodings) and for the 8-bit
+arithmetic and logic on A with a register or immediate operand, flags included (48 encodings), and otherwise carried by the
+native differential and the exhaustive `c01.grid`. -/
 
 /-- the full statement for an encoding that touches no memory (not proved in general) -/
 def RegisterSimulation : Prop :=
@@ -377,6 +379,22 @@ theorem simulation_partial :
     (∀ b1 b2, Simulates 0xf9 b1 b2) ∧ (∀ b1 b2, Simulates 0x00 b1 b2) :=
   ⟨sim_ld8, sim_ldi, sim_ld16, fun p b1 b2 => ⟨sim_incdec16 p false b1 b2, sim_incdec16 p true b1 b2⟩, sim_ld_sp_hl, sim_nop⟩
 
+
+/-- **simulation_alu_partial**: ADD / SUB / AND / XOR / OR A,r and CP r for the seven registers, and their immediate
+forms for every operand byte — result AND flags (Z N H C as the interpreter computes them, the low nibble of F kept) —
+for all states.  The flags go through the host: `op ah, src` sets RFLAGS, nine instructions move ZF / AF / CF into the
+guest's F layout (`X86.flag_pipe`), one or two more fix N and H -/
+theorem simulation_alu_partial :
+    (∀ r b1 b2, Simulates (opcodeAdd r) b1 b2 ∧ Simulates (opcodeSub r) b1 b2 ∧ Simulates (opcodeAnd r) b1 b2 ∧
+      Simulates (opcodeXor r) b1 b2 ∧ Simulates (opcodeOr r) b1 b2 ∧ Simulates (opcodeCp r) b1 b2) ∧
+    (∀ b1 b2, b1 < 256 → Simulates 0xc6 b1 b2 ∧ Simulates 0xd6 b1 b2 ∧ Simulates 0xe6 b1 b2 ∧ Simulates 0xee b1 b2 ∧
+      Simulates 0xf6 b1 b2 ∧ Simulates 0xfe b1 b2) :=
+  ⟨fun r b1 b2 => ⟨sim_add r b1 b2, sim_sub r b1 b2, sim_and r b1 b2, sim_xor r b1 b2, sim_or r b1 b2, sim_cp r b1 b2⟩,
+   fun b1 b2 hb => ⟨sim_c6 b1 b2 hb, sim_d6 b1 b2 hb, sim_e6 b1 b2 hb, sim_ee b1 b2 hb, sim_f6 b1 b2 hb, sim_fe b1 b2 hb⟩⟩
+
+/-- ADD A,B = 0x80, SUB L = 0x95, XOR A = 0xAF, CP E = 0xBB -/
+example : opcodeAdd .B = 0x80 ∧ opcodeSub .L = 0x95 ∧ opcodeXor .A = 0xaf ∧ opcodeCp .E = 0xbb := by decide
+
 /-- the opcodes covered are the SM83's: LD B,C = 0x41, LD A,n = 0x3E, LD SP,nn = 0x31, DEC HL = 0x2B -/
 example : opcodeLd8 .B .C = 0x41 ∧ opcodeLdI .A = 0x3e ∧ opcodeLd16 .SP = 0x31 ∧ opcodeDec16 .HL = 0x2b := by decide
 
@@ -390,6 +408,14 @@ example : (match decodeCode (Gen.emitOp 0x41) with
         | .ok s' => (get s' 3).toNat % 65536 == 0x1313 && (get s' 13).toNat % 65536 == 0x151
         | .error _ => false)
     | none => false) = true := by decide +kernel
+
+/-- non-vacuity: SUB B from the example state (A = 0x01, B = 0x00, F = 0xB0) runs and leaves AF = 0x01 / N set, others clear -/
+example : (match decodeCode (Gen.emitOp 0x90) with
+    | some code => (match run JitCycles.nullBus code (bytesOf (Gen.emitOp 0x90)) 20 exHost with
+        | .ok s' => (get s' 0).toNat % 65536 == 0x0140
+        | .error _ => false)
+    | none => false) = true := by decide +kernel
+example : (Interp.opSub exGuest (Interp.getReg exGuest .B)).af = 0x0140 := by decide
 
 
 /-! non-vacuity of the run-level theorems: templates do run to completion on the model from a state that meets the
